@@ -16,7 +16,7 @@ class CrashTracer:
     first entered, so that crash points can be biased to interesting places.
     """
 
-    def __init__(self, crash_at=None, watch=(), relative_to=None):
+    def __init__(self, crash_at=None, watch=(), relative_to=None, watch_path=None):
         """relative_to: name of a watched function; crash_at then counts line events from its first entry."""
         self.prefix = loader.pkg_dir() + "/"
         self.crash_at = crash_at if relative_to is None else None
@@ -28,6 +28,18 @@ class CrashTracer:
         self.fired = None
         self.watch = set(watch)
         self.marks = {}
+        # watch_path: record the line-event number at which a file (the -o target) is first seen modified
+        self.watch_path = watch_path
+        self.changed_at = None
+        self.sig0 = self._sig() if watch_path else None
+
+    def _sig(self):
+        import os
+        try:
+            st = os.stat(self.watch_path)
+            return (st.st_size, st.st_mtime_ns, st.st_ino)
+        except OSError:
+            return None
 
     def _global(self, frame, event, arg):
         if event == "call" and frame.f_code.co_filename.startswith(self.prefix):
@@ -42,6 +54,8 @@ class CrashTracer:
     def _local(self, frame, event, arg):
         if event == "line":
             self.count += 1
+            if self.watch_path is not None and self.changed_at is None and self._sig() != self.sig0:
+                self.changed_at = self.count
             if self.crash_at is not None and self.count == self.crash_at and self.fired is None:
                 code = frame.f_code
                 self.fired = f"{code.co_filename[len(self.prefix):]}:{code.co_name}:{frame.f_lineno}"
